@@ -317,6 +317,11 @@ impl Engine for C04 {
         default.min(5)
     }
 
+    fn as_limit_mb(&self, tier: Tier) -> u64 {
+        // the derivation-tree enumerator of the long strata holds a few GiB per worker (at most 5 workers)
+        tier.pick(4096, 10240)
+    }
+
     fn explore(&self, tier: Tier, ctx: &mut Ctx) {
         let gs = Grammars::load();
         let mut sentence_count: BTreeMap<&'static str, u64> = BTreeMap::new();
